@@ -89,6 +89,10 @@ class Disc1D:
                 return 10.0 + int(m.group("off")) + inside
             a, b = int(m.group("a")), int(m.group("b"))
             return (-100.0 if a == 0 else 100.0) + b + inside
+        from .algebra import hash_str as _hs
+        _h = lambda nm, k: (_hs("%s|%d" % (nm, k)) % 100003) / 100003.0
+        # the domain length is the distance between the first and the last face of the same witness mesh
+        self.alg.point_hooks["Len"] = lambda k: (100.0 + 0.2 * _h("xf#1n+0", k)) - (-100.0 + 0.2 * _h("xf#0n+0", k))
         self.alg.point_pattern_hooks.append((_re.compile(r"^(?P<name>xf\w*|xc\w*)(?:@(?P<off>[+-]\d+)|#(?P<a>-?\d+)n(?P<b>[+-]\d+))$"), _pos))
         self.interp = Interp(proj, self.dom)
         self.interp.cond_policy = list(COND_POLICY)
@@ -115,6 +119,9 @@ class Disc1D:
             if isinstance(v, SArr):
                 self.mesh.attrs[k] = SArr(v.length, [(l, h, self.subst_names(x, ren)) for l, h, x in v.segs])
         self.mesh.attrs.update({"ncell": N, "xf": self.stn.input("xf", N + 1), "xc": self.stn.input("xc", N), "length": self.Len})
+        # value arithmetic that mixes the mesh size with data (`xf[n]/n`) is carried out in the ring
+        self.interp.size_atom = mb.ncell_atom
+        self.ncell_atom = mb.ncell_atom
         bc = {"type": "per"} if periodic else {"type": "dirichlet"}
         names = ["d"] if neq == 1 else ["d%d" % i for i in range(neq)]
         self.dnames = names
